@@ -225,6 +225,9 @@ pub fn decompress_take<R: std::io::Read>(ct: crate::compression::CompressionType
             &&& crate::compression::decompress_spec(ct, b.subrange(p, p + block_len)) is Some
             &&& final(out)@ == old(out)@ + crate::compression::decompress_spec(ct, b.subrange(p, p + block_len))->0
         },
+        // on a source that fails only past its end, the bytes of a stored block that decompresses are always delivered
+        crate::vio::rd_reliable(old(reader)) && 0 <= crate::vio::rd_pos(old(reader)) && crate::vio::rd_pos(old(reader)) + block_len <= crate::vio::rd_bytes(old(reader)).len()
+            && crate::compression::decompress_spec(ct, crate::vio::rd_bytes(old(reader)).subrange(crate::vio::rd_pos(old(reader)), crate::vio::rd_pos(old(reader)) + block_len)) is Some ==> r is Ok,
 { unimplemented!() }
 
 /// R-hoist of `buf.extend(offsets.iter().copied().flat_map(u64::to_be_bytes))` (iterator adapters are outside Verus).
